@@ -28,6 +28,7 @@ def check_roles(cx, rep, funcs=None, floor=None, rule='audio-parameter role agre
 
 def check(repo, rep):
     cx = Ctx(repo)
+    rep.cx = cx
     sw = SplitWiring(cx)
     rep.floor('returning paths of split()', len(sw.paths), 4)
     for d in sw.paths:
@@ -123,6 +124,43 @@ def check(repo, rep):
                     except ValueError as exc:
                         rep.unknown('split(): mode term not constant-evaluable (%s)' % exc)
 
+    # ---------------------------------------------------------------- a region input keeps its own parameters whatever the caller passes
+    nreg = 0
+    for l in cx.leaves('core', 'split'):
+        if l.outcome != 'return':
+            continue
+        isreg = any(c[0][0] == 'call' and c[0][1] == ('b', 'isinstance') and len(c[0][2]) == 2 and c[0][2][0] == ('p', 'input') and term_name(c[0][2][1]).endswith('AudioRegion') and c[1] for c in l.conds)
+        if not isreg:
+            continue
+        rd = [e for e in l.effects if e[0] == 'call' and e[1][0] == 'call' and e[1][1][0] == 'g' and e[1][1][2] == 'AudioReader']
+        if not rd:
+            rep.unknown('split(): no AudioReader is built on the AudioRegion-input path')
+            continue
+        nreg += 1
+        kws = dict(rd[-1][1][3])
+        items = {}
+        cur = kws.get('**')
+        while cur is not None and cur[0] == 'upd':
+            if cur[2][0] == 'c' and cur[2][1] not in items:
+                items[cur[2][1]] = cur[3]
+            cur = cur[1]
+        if cur is not None and cur[0] == 'dict':
+            for kk, vv in cur[1]:
+                if kk[0] == 'c' and kk[1] not in items:
+                    items[kk[1]] = vv
+        for k_, v_ in kws.items():
+            if k_ != '**':
+                items[k_] = v_
+        for long_, role in (('sampling_rate', 'sampling_rate'), ('sample_width', 'sample_width'), ('channels', 'channels')):
+            v = items.get(long_)
+            shorts = [k_ for k_, v_ in items.items() if k_ != long_ and ROLE_OF.get(k_) == role and is_attr_of(('p', 'input'), roles=[role])(v_)]
+            if v is None and not shorts:
+                rep.unknown('split(): how the parameters of an AudioRegion input reach the reader was not recognised (%s is not set on the keyword dictionary)' % long_)
+                continue
+            ok = v is not None and is_attr_of(('p', 'input'), roles=[role])(v)
+            rep.ob('an AudioRegion input is read with ITS OWN %s: it is bound under the long keyword (which wins over any alias the caller passed)' % role, ok, cx.where('core', rd[-1][3]), 'split[AudioRegion input]:%s' % long_,
+                   '%s is %s; the region\'s value is only set under %s, so a caller-supplied %s= overrides it' % (long_, show(v)[:60] if v else 'not set', shorts, long_), sample=dict(path='AudioRegion input', key=long_, value=show(v)[:60] if v else None))
+    rep.floor('AudioRegion-input paths of split()', nreg, 1)
     # ---------------------------------------------------------------- AudioRegion.__post_init__
     pl = cx.leaves('core', 'AudioRegion.__post_init__')
     pinit = cx.fn('core', 'AudioRegion.__post_init__')
@@ -161,6 +199,24 @@ def check(repo, rep):
             for pn in ('min_dur', 'max_dur', 'max_silence', 'drop_trailing_silence', 'strict_min_dur'):
                 rep.ob('AudioRegion.split passes %s in role' % pn, b.get(pn) == ('p', pn), cx.where('core', l.node), 'AudioRegion.split:' + pn, '%s receives %s' % (pn, show(b.get(pn)) if b.get(pn) else None))
     rep.floor('AudioRegion.split returning paths', nret, 1)
+    # the method and the function are the same operation: same defaults for the parameters they share
+    sfn, mfn = cx.fn('core', 'split'), cx.fn('core', 'AudioRegion.split')
+
+    def defaults(fn):
+        a = fn.args
+        pos = a.posonlyargs + a.args
+        out = {x.arg: d for x, d in zip(pos[len(pos) - len(a.defaults):], a.defaults)}
+        out.update({x.arg: d for x, d in zip(a.kwonlyargs, a.kw_defaults) if d is not None})
+        return out
+    ds, dm = defaults(sfn), defaults(mfn)
+    for pn in sorted(set(ds) & set(dm)):
+        try:
+            vs, vm = ast.literal_eval(ds[pn]), ast.literal_eval(dm[pn])
+        except (ValueError, SyntaxError):
+            rep.unknown('split(): default of %s is not a literal' % pn)
+            continue
+        rep.ob('AudioRegion.split and split() have the same default for %s' % pn, vs == vm and type(vs) == type(vm), cx.where('core', mfn), 'AudioRegion.split:default-%s' % pn, 'method %r, function %r' % (vm, vs),
+               sample=dict(parameter=pn, default=repr(vs)))
     # ---------------------------------------------------------------- role rule (package-wide instances relevant to split)
     check_roles(cx, rep, lambda p: p['func'] in ('split', '_make_audio_region', 'AudioRegion.__post_init__', 'AudioRegion.split', 'AudioRegion.load', 'make_silence', '_Recorder.rewind', 'get_audio_source', 'AudioEnergyValidator.__init__'), floor=15)
     rep.explanation = ('Wiring of split() decided on every returning path from provenance terms of the current source: region data = b"".join(token frames); rate/width/channels '
